@@ -111,6 +111,9 @@ def run_shard(shard, ctx):
             for footer in (True, False):
                 for L in range(492, 520):
                     run_case({"geom": g, "len": L, "lba": lba, "footer": footer}, ctx)
+                # grains of 64 / 128 KiB holding incompressible data: the deflate stream is longer than 65535 bytes
+                for grain in (128, 256):
+                    run_case({"geom": g, "len": 0, "lba": lba, "footer": footer, "biggrain": grain}, ctx)
         return
     if g["kind"] == "flat":
         for nsec in (1, 15, 16, 17, 33, 130):
@@ -185,9 +188,16 @@ def run_case(case, ctx):
         fh = img.sparse(log=False)
     elif g["kind"] == "tuned":
         L = case["len"]
-        grain = 8
+        grain = case.get("biggrain", 8)
         explicit = {}
+        if case.get("biggrain"):
+            import hashlib
+
+            for gi in (0, 2, 3):
+                explicit[gi] = b"".join(hashlib.sha256(b"big/%d/%d" % (gi, i)).digest() for i in range(grain * 16))
         for gi, seed in ((0, 1), (2, 2), (3, 3)):
+            if case.get("biggrain"):
+                break
             b = B.tuned_grain(grain, L + (gi % 2), seed) or B.tuned_grain(grain, L, seed)
             if b is not None:
                 explicit[gi] = b
@@ -196,15 +206,16 @@ def run_case(case, ctx):
             return
         capacity = 5 * grain - 3
         size = capacity * 512
-        img = B.build_hosted(states, slots, grain, 512, capacity, footer=case["footer"], compressed=True, stride=4,
-                             explicit=explicit, embedded_lba=case["lba"])
+        img = B.build_hosted(states, slots, grain, 512, capacity, footer=case["footer"], compressed=True,
+                             stride=grain + 2 if case.get("biggrain") else 4, explicit=explicit, embedded_lba=case["lba"])
         disk = B.model(states, grain, capacity, explicit=explicit)
         ctx.model(case)
         ctx.nontrivial += 1
         ctx.outcome("data@L1")
-        pts = [0, 1, 4095, 4096, 8192, 8193, 3 * 4096 - 1, 3 * 4096, 4 * 4096, size - 1, size]
+        gb = grain * 512
+        pts = [0, 1, gb - 1, gb, 2 * gb, 2 * gb + 1, 3 * gb - 1, 3 * gb, 4 * gb, size - 1, size]
         reqs = request_pairs(pts)
-        sreqs = [(0, 8), (7, 2), (8, 8), (16, 16), (0, capacity)]
+        sreqs = [(0, grain), (grain - 1, 2), (grain, grain), (2 * grain, 2 * grain), (0, capacity)]
         states = slots = srcs = full_states = full_slots = None
         unit = 4096
         subject = "vmdk.hosted.compressed" + (".lba" if case["lba"] else ".nolba") + (".footer" if case["footer"] else "")
